@@ -1052,9 +1052,52 @@ fn check_literal(ctx: &mut Ctx, lex: &str, dt: &str) {
                     ),
                     Denoted::Unknown => ctx.class("oracle-unknown"),
                     Denoted::IllTyped => {
-                        // the statement only speaks about the value a lexical form denotes; an ill-typed
-                        // literal denotes nothing. Counted, not failed.
+                        // An ill-typed literal denotes nothing *in its own datatype*. The toolkit is
+                        // deliberately lenient about facets ("300"^^xsd:byte) and about decimals written
+                        // with an exponent: such acceptances are counted, not failed, but the value must
+                        // still be the one the characters spell in the XSD numeric lexical space that
+                        // contains them. A form that is in no XSD numeric lexical space at all ("+-5",
+                        // "0x10", "5 ") spells nothing: accepting it is a failure.
                         ctx.class(format!("ill-typed-accepted:{target}<-{dtl}:{shape}"));
+                        let general: Option<FpLex> = match parse_integer_lexical(lex) {
+                            Some(d) => Some(FpLex::Num(d)),
+                            None => match parse_decimal_lexical(lex, false) {
+                                Some(d) => Some(FpLex::Num(d)),
+                                None => parse_fp_lexical(lex),
+                            },
+                        };
+                        match (general, ok) {
+                            (None, _) => ctx.fail(
+                                format!("convert/accepts-malformed/{target}/{shape}"),
+                                format!("{target}::try_from_term({}) = {} although the lexical form is in no XSD numeric lexical space", m.show(), ok.show()),
+                            ),
+                            (Some(FpLex::Num(d)), Conv::I(v)) => {
+                                if exact_integer(&d) != Some(*v) {
+                                    bad(ctx, format!("the characters spell {}{}e{}", if d.neg { "-" } else { "" }, d.digits, d.exp));
+                                }
+                            }
+                            (Some(FpLex::Num(d)), Conv::F(bits)) => {
+                                let fp = if family(&dt) == Family::Float { Fp::F32 } else { Fp::F64 };
+                                if let Some(e) = nearest(&d, fp) {
+                                    let got = f64::from_bits(*bits);
+                                    if !(got == e || (got.is_nan() && e.is_nan())) {
+                                        bad(ctx, format!("the nearest value to the number the characters spell is {e:?}"));
+                                    }
+                                }
+                            }
+                            (Some(FpLex::Inf(neg)), Conv::F(bits)) => {
+                                let e = if neg { f64::NEG_INFINITY } else { f64::INFINITY };
+                                if f64::from_bits(*bits) != e {
+                                    bad(ctx, format!("the characters spell {e:?}"));
+                                }
+                            }
+                            (Some(FpLex::NaN), Conv::F(bits)) => {
+                                if !f64::from_bits(*bits).is_nan() {
+                                    bad(ctx, "the characters spell NaN".into());
+                                }
+                            }
+                            (Some(_), _) => bad(ctx, "the characters spell a non-finite number".into()),
+                        }
                     }
                     Denoted::Bool(b) => match ok {
                         Conv::B(v) if v == b => {}
